@@ -46,6 +46,9 @@ namespace rkcommon {
           }
         };
 
+        if (nTasks <= 0)
+          return;
+
         LocalTask task(nTasks, std::forward<TASK_T>(fcn));
         scheduleTaskInternal(&task);
         waitInternal(&task);
